@@ -10,12 +10,11 @@ props = sys.argv[1:] or ["C%02d" % i for i in range(1, 21)]
 os.makedirs(os.path.join(HERE, "reach"), exist_ok=True)
 union = {}; bunion = {}
 for p in props:
-    for d in glob.glob(os.path.join(HERE, ".build", p + ".quick.*")):
-        shutil.rmtree(d, ignore_errors=True)
-    r = subprocess.run([os.path.join(HERE, "check"), p, "--tier", "quick", "--keep"], cwd=HERE, env=dict(os.environ, VERIF_GCOV="1"),
-                       stdout=subprocess.PIPE, stderr=subprocess.STDOUT, text=True)
-    last = r.stdout.strip().splitlines()[-1] if r.stdout.strip() else ""
-    bd = sorted(glob.glob(os.path.join(HERE, ".build", p + ".quick.*")))
+    pr = subprocess.Popen([os.path.join(HERE, "check"), p, "--tier", "quick", "--keep"], cwd=HERE, env=dict(os.environ, VERIF_GCOV="1"),
+                          stdout=subprocess.PIPE, stderr=subprocess.STDOUT, text=True)
+    txt = pr.communicate()[0]
+    last = txt.strip().splitlines()[-1] if txt.strip() else ""
+    bd = [os.path.join(HERE, ".build", "%s.quick.%d" % (p, pr.pid))]   # only this run's directory: other checks may be running
     res = {}; bres = {}
     for b in bd:
         for cdir in glob.glob(os.path.join(b, "gcov*")):
